@@ -734,6 +734,7 @@ def run_task(task: dict) -> dict:
             if len(samples) < 1:
                 samples.append({"layer": "T", "pool": wl.pool, "programs": programs, "policy": policy, "steps": res["steps"],
                                 "schedule_taken": res["schedule"][:20], "first_switch_sites": res["sites"]})
+    stats.inc(f"distinct_{layer}", len(distinct))
     return {"stats": dict(stats), "digest": log.digest(), "violations": violations, "samples": samples,
             "distinct": len(distinct), "runs": runs}
 
@@ -836,6 +837,9 @@ def finalize(stats, tier, runs, distinct, samples, wall):
         "faults_fired": {k: v for k, v in sorted(stats.items()) if k.startswith("fault_")},
         "thread_steps": stats.get("thread_steps", 0),
         "thread_switches": stats.get("thread_switches", 0),
+        "distinct_histories": stats.get("distinct_H", 0),
+        "distinct_fault_points": stats.get("distinct_fault_points", 0),
+        "distinct_interleavings": stats.get("distinct_T", 0),
         "distinct_interleavings_measure": "sha256 of the switch list [(step index, next thread)] + first 64 switch sites (file:line)",
         "policies": {k: v for k, v in sorted(stats.items()) if k.startswith("policy_")},
         "probes": {k: v for k, v in sorted(stats.items()) if k.startswith("probe_")},
